@@ -173,6 +173,34 @@ func c05(c *h.Ctx) {
 		c05Tree(c, "corpus/F6", s, 2)
 	}
 
+	// 0b. values are independent of each other: decoding INTO one value (the typed UnmarshalBinary the package's own
+	// tests use) must not change any other value — in particular not the values later constructors hand out
+	{
+		cases := []struct {
+			name string
+			mk   func() amf0.Amf0
+			into []byte
+			want string
+		}{
+			{"Boolean(false)", func() amf0.Amf0 { return amf0.NewBoolean(false) }, []byte{1, 1}, "0100"},
+			{"Boolean(true)", func() amf0.Amf0 { return amf0.NewBoolean(true) }, []byte{1, 0}, "0101"},
+			{"Null", func() amf0.Amf0 { return amf0.NewNull() }, []byte{5}, "05"},
+			{"Undefined", func() amf0.Amf0 { return amf0.NewUndefined() }, []byte{6}, "06"},
+			{"Number(0)", func() amf0.Amf0 { return amf0.NewNumber(0) }, []byte{0, 0x40, 0x59, 0, 0, 0, 0, 0, 0}, "000000000000000000"},
+			{"String()", func() amf0.Amf0 { return amf0.NewString("") }, []byte{2, 0, 2, 'h', 'i'}, "020000"},
+		}
+		for _, k := range cases {
+			held := k.mk() // a value the application already holds
+			k.mk().UnmarshalBinary(k.into)
+			fresh := k.mk()
+			o1, _ := libMarshal(held)
+			o2, _ := libMarshal(fresh)
+			id := fmt.Sprintf("New%s; New%s.UnmarshalBinary(%s); New%s", k.name, k.name, h.Hex(k.into), k.name)
+			c.Hold(h.Hex(o1) == k.want && h.Hex(o2) == k.want, "values_are_independent", id, h.Hex(o1)+" / "+h.Hex(o2), k.want+" / "+k.want)
+			c.Case("independent-values", id, true)
+		}
+	}
+
 	// 1. API-built random trees: depth ≤ 6, ≤ 200 nodes, keys from a small alphabet.
 	ntree := c.N(1500, 40000)
 	for i := 0; i < ntree; i++ {
